@@ -805,6 +805,9 @@ impl Prop for C18 {
             return finish(&src, &inputs, n, vec!["mode:corpus".to_string(), format!("mut:{m}")], text_stateful(&src), cx);
         }
         let (cfg, off) = pcfg(cx);
+        // half of the programs are small (a handful of lines)
+        let small = g.bool(1, 2);
+        let cfg = if small { cfg.small(g) } else { cfg };
         let mut pg = PG::new(g, cfg);
         let mut p = pg.program();
         let feat = pg.feat.clone();
@@ -813,7 +816,8 @@ impl Prop for C18 {
         let src = prog::render(&p, &Layout::default());
         let inputs = gen_inputs(g);
         let n = *g.pick(&[8u64, 16, 4, 12, 6, 2, 1]);
-        let classes = feat.classes();
+        let mut classes = feat.classes();
+        classes.push(if small { "size:small".into() } else { "size:full".into() });
         let featureful = feat.stateful() || classes.iter().any(|c| matches!(c.as_str(), "f:local-closure" | "f:global-closure" | "f:maker-closure" | "f:hof" | "f:stateful-call"));
         let mut r = finish(&src, &inputs, n, classes, featureful, cx);
         for id in off {
